@@ -355,7 +355,11 @@ func runH264Lossless(disable, avc bool, calls []Tok) Outcome {
 	if o.Fail == "" {
 		o.Fail = seq.Fail
 	}
-	if o.Fail == "" {
+	carriable := true
+	for _, nals := range nalsPerCall {
+		carriable = carriable && annexBCarriable(nals)
+	}
+	if o.Fail == "" && carriable {
 		o.Fail = h264LosslessOracle(disable, avc, mtus, streams, nalsPerCall)
 	}
 	return o
